@@ -159,9 +159,11 @@ pub fn fan_out(world: &str, tier: &str, seed: u64, runs: u64, jobs: usize, extra
     let per = (runs + jobs as u64 - 1) / jobs as u64;
     let mut children = vec![];
     let stamp = std::process::id();
+    let _ = per;
     for j in 0..jobs {
-        let from = j as u64 * per;
-        let to = ((j as u64 + 1) * per).min(runs);
+        // run indexes are dealt out round robin (worker j takes j, j+jobs, ...): expensive runs are spread evenly
+        let from = j as u64;
+        let to = runs;
         if from >= to {
             continue;
         }
@@ -172,6 +174,7 @@ pub fn fan_out(world: &str, tier: &str, seed: u64, runs: u64, jobs: usize, extra
         for e in extra {
             cmd.arg(e);
         }
+        cmd.arg(format!("stride={}", jobs));
         if j % 2 == 1 && !extra.iter().any(|e| e == "digests") {
             // every second worker process runs the library with debug-level logging on (IWE_DEBUG=1 in production)
             cmd.arg("debuglog");
@@ -185,10 +188,10 @@ pub fn fan_out(world: &str, tier: &str, seed: u64, runs: u64, jobs: usize, extra
     let mut queue: Vec<(std::process::Child, PathBuf, u64, usize)> = vec![];
     let mut j = 0u64;
     for (child, out) in children {
-        let to = ((j + 1) * per).min(runs);
-        queue.push((child, out, to, 0));
+        queue.push((child, out, runs, 0));
         j += 1;
     }
+    let _ = j;
     let mut k = 0;
     while k < queue.len() {
         let st = queue[k].0.wait().map_err(|e| e.to_string())?;
@@ -212,13 +215,14 @@ pub fn fan_out(world: &str, tier: &str, seed: u64, runs: u64, jobs: usize, extra
                 total.count("ranges_abandoned_after_repeated_process_death", 1);
                 continue;
             }
-            if idx + 1 < to {
+            if idx + (jobs as u64) < to {
                 let out2 = scratch.join(format!("w-{}-{}-r{}-{}.json", stamp, world, idx, respawns));
                 let mut cmd = Command::new(&exe);
-                cmd.arg("worker").arg(world).arg(tier).arg(seed.to_string()).arg((idx + 1).to_string()).arg(to.to_string()).arg(&out2);
+                cmd.arg("worker").arg(world).arg(tier).arg(seed.to_string()).arg((idx + jobs as u64).to_string()).arg(to.to_string()).arg(&out2);
                 for e in extra {
                     cmd.arg(e);
                 }
+                cmd.arg(format!("stride={}", jobs));
                 cmd.stdin(Stdio::null()).stdout(Stdio::null()).stderr(Stdio::null());
                 let child = cmd.spawn().map_err(|e| format!("spawn worker: {}", e))?;
                 queue.push((child, out2, to, respawns + 1));
@@ -337,4 +341,9 @@ pub fn write_evidence(e: EvidenceIn) -> Result<(), String> {
 pub fn note_progress(out_file: &str, index: u64) {
     let p = Path::new(out_file).with_extension("progress");
     let _ = std::fs::write(p, index.to_string());
+}
+
+/// `stride=<n>` among a worker's extra arguments (default 1)
+pub fn stride_of(extra: &[String]) -> u64 {
+    extra.iter().find_map(|e| e.strip_prefix("stride=").and_then(|v| v.parse().ok())).unwrap_or(1).max(1)
 }
